@@ -187,4 +187,28 @@ def Spec (i : Info) (s : Bytes) : Prop :=
     All₂ FormSpec forms rs ∧
     s = ids.flatMap renderId ++ feats.flatMap renderFeat ++ rs.flatten
 
+
+/-! ## Probe domains (the regenerated facts of `Generated/C20.lean` are tables over them) -/
+
+/-- for every ordered pair of distinct positions `(i, j)` of `u`: does `le u[i] u[j]` hold, i.e.
+does a stable sort by `le` leave `[u[i], u[j]]` in that order? -/
+def orderTable {α} (u : List α) (le : α → α → Bool) : List (Nat × Nat × Bool) :=
+  u.zipIdx.flatMap fun xi => u.zipIdx.filterMap fun yj =>
+    if xi.2 = yj.2 then none else some (xi.2, yj.2, le xi.1 yj.1)
+
+/-- `""`, `"B"`, `"a"`, `"ab"`, `"b"`, `"é"`: upper before lower case (byte order, no folding),
+a prefix before its extension, `"ab"` before `"b"` (not by length), non-ASCII last -/
+def probeStrings : List Bytes := [[], [0x42], [0x61], [0x61, 0x62], [0x62], [0xc3, 0xa9]]
+
+/-- all sixteen identities with category, type, lang ∈ {a, b} and name ∈ {m, n} -/
+def probeIds : List Identity :=
+  [[0x61], [0x62]].flatMap fun c => [[0x61], [0x62]].flatMap fun t => [[0x61], [0x62]].flatMap fun l =>
+    [[0x6d], [0x6e]].map fun n => ⟨c, t, l, n⟩
+
+/-- the form `{FORM_TYPE = s, v = [s]}` -/
+def probeForm (s : Bytes) : Form := ⟨[⟨formTypeVar, [s]⟩, ⟨[0x76], [s]⟩]⟩
+
+/-- the field `{var = s, values = [s]}` -/
+def probeField (s : Bytes) : Field := ⟨s, [s]⟩
+
 end XmppModel.Caps
